@@ -201,7 +201,7 @@ def random_histories(r, tier, seed):
 
 
 @bound('signals holding scalars: python float / complex, numpy float64 / complex128 / float32 scalars, 0-d arrays, with or without initial sensitivity; '
-       'all 3^4 reset/add sequences of length 4 over {add scalar, reset(), reset(True), reset(False)} plus 60 [quick] / 600 [thorough] random 30-operation histories')
+       'all 4^3 [quick] / 4^4 [thorough] sequences over {add scalar, reset(), reset(True), reset(False)} plus 60 [quick] / 600 [thorough] random 30-operation histories')
 def scalar_signals(r, tier, seed):
     rng = np.random.default_rng(seed + 181)
     kinds = [('f', 1.5), ('c', 0.5, -2.0), ('s', 'float64', 2.25), ('s', 'complex128', 1.0, 0.5), ('s', 'float32', -0.75),
@@ -211,7 +211,7 @@ def scalar_signals(r, tier, seed):
         for withsens in (False, True):
             spec = [dict(state=st, sens=(scal(rng, dtype) if withsens else None), order='C', slices=[]),
                     dict(state=st, sens=None, order='C', slices=[])]
-            for seq in itertools.product(range(4), repeat=4):
+            for seq in itertools.product(range(4), repeat=3 if tier == 'quick' else 4):
                 ops = []
                 for a in seq:
                     ops.append(('add2', (0, None, False), (1, None, False), scal(rng, dtype, ('py', 'np', '0d'))) if a == 0 else ('reset', 0, None, False, (None, True, False)[a - 1]))
